@@ -667,6 +667,9 @@ def c07(ctx):
     ctx.add_mc(r)
     r = vlib.tlc_mc(ctx.workdir, "MC_Tokenizer", "SPECIFICATION SpecLines\nCONSTANTS\n  MaxToks = 0\n  MaxLen = 0\n  MaxLine = %d\nINVARIANT LineInv\nCHECK_DEADLOCK FALSE\n" % (5 if q else 7), workers=8, want_T=False)
     ctx.add_mc(r)
+    r = vlib.tlc_mc(ctx.workdir, "MC_TokenizerBuf", "SPECIFICATION Spec\nCONSTANT MaxLine = %d\nINVARIANT Inv\nCHECK_DEADLOCK FALSE\n" % (6 if q else 8), workers=8, want_T=False, timeout=1500)
+    r["constants"] = {"MaxLine": 6 if q else 8, "what": "in-place tokenisation refines Tokenize; write position never overtakes read position"}
+    ctx.add_mc(r)
     maxlen = 5 if q else 7
     reqs = [{"m": "tokens_enum", "alphabet": TOK_ALPHA, "maxlen": maxlen}]
     # round trip on the code: every list of <= 3 strings of <= 2 (3) characters, rendered
@@ -943,9 +946,13 @@ SIZES_HIST = [0, 1, 2, 3, 5, 9, 16, 33, 64]
 ALLSETS = ["leds", "mixed", "raw", "grouped", "tiny", "wide"]
 
 
-def cli_property(ctx, focus, mc_consts, mc_limit, profiles, rule, shards=12, extra_scripts=None):
+def cli_property(ctx, focus, mc_consts, mc_limit, profiles, rule, shards=12, extra_scripts=None, models=()):
     vh = vlib.build_harness()
     rng = random.Random(ctx.seed)
+    for module, cfg, consts in models:
+        r = vlib.tlc_mc(ctx.workdir, module, cfg, workers=8, want_T=False, timeout=1500)
+        r["constants"] = consts
+        ctx.add_mc(r)
     scripts = []
     sid = 1
     for consts in mc_consts:
@@ -1063,6 +1070,8 @@ def c13(ctx):
                         [dict(SMALL, WithApi=True)] if q else [dict(MED, WithApi=True)],
                         2000 if q else 100000,
                         [(1000 if q else 30000, prof)], extra_scripts=systematic_api(ctx, "c13"),
+                        models=[("MC_Writer", "SPECIFICATION Spec\nCONSTANT MaxCalls = %d\nINVARIANT Inv\nCHECK_DEADLOCK FALSE\n" % (3 if q else 4),
+                                 {"MaxCalls": 3 if q else 4, "what": "implementation-shaped dirty flag: bytes = Conv(text) and is_dirty <=> NeedsBreak for every chunking"})],
                         rule="every chunking of texts over {x, LF, CR LF, empty} into <= 2 (thorough 3) calls of write_str / writeln_str / "
                         "formatted writes, through a handler and through Cli::write, at cursor positions of a short line; plus "
                         "handler output and Cli::write with random chunkings (<= 3 calls of write_str / writeln_str / ufmt / "
@@ -1141,6 +1150,8 @@ def c11(ctx):
                         [dict(SMALL, WithApi=False)] if q else [dict(MED, WithApi=False)],
                         1500 if q else 100000,
                         [(1500 if q else 40000, prof)], extra_scripts=c11_systematic(ctx),
+                        models=[("MC_Autocomplete", "SPECIFICATION Spec\nCONSTANT MaxCap = %d\nINVARIANT Inv\nCHECK_DEADLOCK FALSE\n" % (8 if q else 11),
+                                 {"MaxCap": 8 if q else 11, "what": "implementation-shaped merge, every order of every <= 3-subset of 7 names, admitted by Complete over the set"})],
                         rule="per name set every line blanks* prefix blanks* for every prefix of every name x every cursor position x "
                         "every amount of room (systematic; quick: a seeded sample); Tab pressed at random cursor positions of lines built from prefixes of command names and blanks, over five "
                         "command sets (shared prefixes non-adjacent in declaration order, one name a prefix of another, multi-byte "
@@ -1648,6 +1659,9 @@ def c03(ctx):
         r = vlib.tlc_mc(ctx.workdir, "MC_HistoryBuf", "SPECIFICATION Spec\nCONSTANTS\n  HCap = %d\nVIEW View\nINVARIANT Inv\nCHECK_DEADLOCK FALSE\n" % hcap, want_T=False)
         r["constants"] = {"HCap": hcap}
         ctx.add_mc(r)
+    r = vlib.tlc_mc(ctx.workdir, "MC_TokenizerBuf", "SPECIFICATION Spec\nCONSTANT MaxLine = %d\nINVARIANT Inv\nCHECK_DEADLOCK FALSE\n" % (5 if q else 7), workers=8, want_T=False)
+    r["constants"] = {"MaxLine": 5 if q else 7}
+    ctx.add_mc(r)
     # (ii) every transition of the composite model for every pair of small sizes, dead bytes poisoned
     scripts = []
     top = 2 if q else 4
